@@ -351,6 +351,24 @@ Theorem model_passes_clauses_C08 :
 Proof. exact model_passes_clauses_C08_lemma. Qed.
 Print Assumptions model_passes_clauses_C08.
 
+(** The same for ANY configuration — module-served services included, any end-block step — with the
+    correspondence component, for both properties at once; only clause 1 of C08 is left out (its
+    freshness argument is the one that needs [c_msvc c < 0]).  On the case the driver would print for
+    the model, [check_case_C07] answers (-1, p, k) with k not in {1,2,3,5} and [check_case_C08]
+    answers (-1, p, k) with k not in {2,5,6,8,9}. *)
+Theorem model_passes_clauses_any_config :
+  forall c steps h0 t0 l0 univ,
+    0 <= c_tax c -> clean l0 -> NoDup (create_txhs steps) ->
+    In (DEP, BASE) univ -> (forall d, In d (denoms c) -> In (REQ, d) univ) ->
+    (forall pre st post, steps = pre ++ st :: post -> forall rid q, get rid (reqs (run c (init h0 t0 l0) pre)) = Some q ->
+       In (TAX, q_fd q) univ /\ In (REQ, q_fd q) univ) ->
+    ledger_of (obs_of univ 0 None [] (init h0 t0 l0)) = l0 ->
+    let cs := model_case univ c h0 t0 l0 steps in
+    (forall corr p k, check_case_C07 cs = (corr, p, k) -> corr = -1 /\ k <> 1 /\ k <> 2 /\ k <> 3 /\ k <> 5)
+    /\ (forall corr p k, check_case_C08 cs = (corr, p, k) -> corr = -1 /\ k <> 2 /\ k <> 5 /\ k <> 6 /\ k <> 8 /\ k <> 9).
+Proof. exact model_passes_clauses_any_lemma. Qed.
+Print Assumptions model_passes_clauses_any_config.
+
 (** ** non-vacuity: a history in which one request is answered and its sibling expires; a
     late answer to the expired one and a duplicate answer to the answered one are rejected;
     the one-shot context is removed; a repeated context (frequency 3, total 2) starts its
